@@ -130,15 +130,19 @@ func c3DecodeManifest(raw []byte) (c3Manifest, bool) {
 	if err := json.NewDecoder(bytes.NewReader(raw)).Decode(&m); err != nil {
 		return c3Manifest{}, false
 	}
-	out := c3Manifest{config: c3Layer{c3RefOf(m.Config.Digest), m.Config.Size}}
+	// (media types of wrong-shape manifests are not part of the case: the decorations keep the usual ones or none)
+	out := c3Manifest{config: c3Layer{c3RefOf(m.Config.Digest), m.Config.Size, 0}}
 	for _, l := range m.Layers {
-		out.layers = append(out.layers, c3Layer{c3RefOf(l.Digest), l.Size})
+		out.layers = append(out.layers, c3Layer{c3RefOf(l.Digest), l.Size, 0})
 	}
 	return out, true
 }
 
 // c3StoredManifestJSON: what a successful pull of this case must store (PullModel re-marshals what it decoded).
-func c3StoredManifestJSON(c *c3Case) []byte {
+func c3StoredManifestJSON(c *c3Case, a *c3Attempt) []byte {
+	if a != nil && a.reg != nil {
+		return c3ManifestJSON(*a.reg)
+	}
 	if c.rawManifest == "" {
 		return c3ManifestJSON(c.reg)
 	}
